@@ -91,7 +91,8 @@ PROPS["C01"] = dict(
     technique="property-based testing with generated fault plans (rapid): run-time-built archetypes on the real Run loop, transparent fault-injecting resource wrappers, per-resource transaction models compared after every attempt",
     level_text="Generated programs (1-6 labels x 1-8 reads/writes/indexed accesses) over generated mixes of 2-6 real resources, executed by the real "
                "MPCalContext.Run; a generated fault plan makes each label fail up to 3 times at a drawn position (false await, resource refusing an "
-               "operation, resource failing after performing it, pre-commit failing after the inner pre-commit succeeded). After every attempt every "
+               "operation, resource failing after performing it, pre-commit failing after the inner pre-commit succeeded); some operations are performed in the failing attempts only, "
+               "so that the retry differs from the attempt that failed. After every attempt every "
                "observable (locals, GetState, badger, files, published outputs) must equal the model; every value read must be the model's; at the end "
                "all committed inputs are drained in order and one more read must find nothing. Nested-archetype resources (resources.NewNested) are driven "
                "directly: generated sections against a nested register archetype that answers drawn requests later than the resource's time-out or "
